@@ -120,6 +120,36 @@ def nodup(bases, c):
 # ---------------------------------------------------------------------------
 # generator (pure)
 
+def twin_scenario(rnd, lines, bases, kind, n):
+    # a re-loaded twin: a distinct interface with the same name and module replaces an interface in the bases of one of
+    # its dependents, and is re-based afterwards (dependents are tracked per OBJECT, equal names notwithstanding).
+    # The twin starts without bases and is never given a base of the original, so that the two equal-keyed objects are
+    # never dependents of one common specification (that collision is the recorded finding equal-keyed-twin-dependents).
+    # ... and the original must drop out of every ancestry the twin enters (equal-keyed interfaces in ONE resolution
+    # order are one entry, by design): the original has exactly one dependent, which is re-based onto the twin
+    cands = [(x, sdep) for x in range(1, n) if kind[x] == "I" for sdep in range(1, n) if x in bases[sdep]
+             and sum(1 for d in range(1, n) if x in bases[d]) == 1]
+    if cands:
+        x, sdep = rnd.choice(cands)
+        t = n
+        lines.append("newtwin %d %d I :" % (t, x))
+        kind[t] = "I"
+        bases[t] = []
+        bases[sdep] = [t if b == x else b for b in bases[sdep]]
+        lines.append("set %d : %s" % (sdep, " ".join(map(str, bases[sdep]))))
+        for j in list(range(1, n)) + [t]:
+            lines.append("q %d :" % j)
+        down = {j for j in bases if t in reach(bases, j)}
+        pool = [j for j in range(1, n) if j not in down and kind[j] == "I" and j != x and j not in reach(bases, x) and x not in reach(bases, j)]
+        pool = [j for j in pool if not (set(bases[x]) & {j})]
+        if pool:
+            bs = rnd.sample(pool, min(len(pool), rnd.choice([1, 1, 2])))
+            bases[t] = bs
+            lines.append("set %d : %s" % (t, " ".join(map(str, bs))))
+            for j in list(range(1, n)) + [t]:
+                lines.append("q %d :" % j)
+
+
 def gen_script(rnd, tier, env):
     """one script = one DAG + a rebasing history, with queries after every step"""
     big = tier == "thorough"
@@ -199,6 +229,8 @@ def gen_script(rnd, tier, env):
         if rnd.random() < 0.4:
             for j in live[1:]:
                 lines.append("q %d :" % j)
+    if env == "default" and len(live) == n and rnd.random() < 0.3:
+        twin_scenario(rnd, lines, bases, kind, n)
     return lines, stream
 
 
@@ -226,6 +258,10 @@ def oracle(chk, lines, outs, env, mode):
         if f[0] == "reset":
             bases = {0: []}
             kind = {0: "I"}
+        elif f[0] == "newtwin":
+            if out == "ok":
+                bases[int(f[1])] = []
+                kind[int(f[1])] = f[3]
         elif f[0] == "new":
             s = int(f[1])
             if out == "ok":
